@@ -695,7 +695,7 @@ def filter_agree(ctx, rr):
         if outer is None or any(_enclosing_for(P, u, lp) is not outer for lp in lps):
             raise AnalysisError('R-FILTER-AGREE: link loops of %s are not inside one page loop' % qual)
         dir_of = {id(lp.iter): _loop_direction(P, u, lp) for lp in lps}
-        rows = tables(ctx, u, stmts=outer.body, iters=1, keep=lambda n, c: any(id(c) == k for k in dir_of))
+        rows = tables(ctx, u, stmts=outer.body, iters=1, keep=lambda n, c: any(id(c) == k for k in dir_of), hoist=True)
         bad = []
         for r in rows:
             isp = atom_val(r, '.is_page()')
@@ -848,39 +848,64 @@ def ladder_agree(ctx, rr):
     for qual, role in (('Traph.__add_page', 'insert'), ('Traph.get_potential_prefix', 'query')):
         u = P.unit(qual)
         loops = [f for f in P.own(u, ast.For)]
-        if len(loops) != 1:
+        if not loops:
+            # the other recognised form of "longest non-empty candidate, first one on ties":
+            #   K = max(<non-empty results of the rule application over rules_to_apply()>, key=len, default=<falsy>)
+            mx = [a for a in P.own(u, ast.Assign) if isinstance(a.value, ast.Call) and isinstance(a.value.func, ast.Name) and a.value.func.id == 'max'
+                  and isinstance(a.targets[0], ast.Name)]
+            okm = len(mx) == 1
+            if okm:
+                c = mx[0].value
+                kw = {k.arg: k.value for k in c.keywords}
+                okm = isinstance(kw.get('key'), ast.Name) and kw['key'].id == 'len' and isinstance(kw.get('default'), ast.Constant) and not kw['default'].value and len(c.args) == 1
+                comps = [x for x in ast.walk(u.node) if isinstance(x, (ast.ListComp, ast.GeneratorExp))]
+                applies = any(isinstance(x.elt, ast.Call) and any(t.name == '__apply_webentity_creation_rule' for t in P.targets(x.elt))
+                              and isinstance(x.generators[0].iter, ast.Call) and any(t.name == 'rules_to_apply' for t in P.targets(x.generators[0].iter))
+                              and not x.generators[0].ifs for x in comps)
+                arg = c.args[0] if c.args else None
+                filtered = any(len(x.generators) == 1 and len(x.generators[0].ifs) == 1 and isinstance(x.generators[0].ifs[0], ast.Name)
+                               and isinstance(x.elt, ast.Name) and x.elt.id == x.generators[0].ifs[0].id for x in comps)
+                okm = okm and applies and filtered and isinstance(arg, ast.Name)
+            if not okm:
+                raise AnalysisError('R-LADDER-AGREE: %s no longer has one loop over the rules to apply' % qual)
+            rr.ob(ctx.where(u, mx[0]), '%s: K := longest non-empty candidate over history.rules_to_apply() (max by len, first on ties)' % qual, ok=True)
+            K = mx[0].targets[0].id
+            lp = mx[0]
+        elif len(loops) != 1:
             raise AnalysisError('R-LADDER-AGREE: %s no longer has one loop over the rules to apply' % qual)
-        lp = loops[0]
+        else:
+            lp = loops[0]
         # ---- the candidate loop: K is replaced only by a non-empty strictly longer candidate
-        it_ok = isinstance(lp.iter, ast.Call) and any(t.name == 'rules_to_apply' for t in P.targets(lp.iter))
-        rows = tables(ctx, u, stmts=lp.body, iters=1, keep=lambda n, c: n in ('__apply_webentity_creation_rule',))
-        K = None
-        bad = []
-        cands = [a.targets[0].id for a in ast.walk(lp) if isinstance(a, ast.Assign) and isinstance(a.targets[0], ast.Name) and isinstance(a.value, ast.Call)
-                 and any(t.name == '__apply_webentity_creation_rule' for t in P.targets(a.value))]
-        for a in ast.walk(lp):
-            if isinstance(a, ast.Assign) and isinstance(a.value, ast.Name) and a.value.id in cands and isinstance(a.targets[0], ast.Name):
-                K = a.targets[0].id
-        for r in rows:
-            sets = [e for e in r.events if e.kind == 'set' and e.name == K]
-            tr = [v for k, v in r.val.items() if k.startswith('truthy:') and 'apply_webentity_creation_rule' in k]
-            longer = None
-            for k, v in r.val.items():
-                if k.startswith('ORD:') and 'len(' in k and K in k:
-                    a, b = k[4:].split(' ? ')
-                    cand, cur = (a, b) if 'apply_webentity_creation_rule' in a else (b, a)
-                    longer = r.ord(cand, cur) == 'GT'
-            if sets and not (tr and tr[-1] and longer):
-                bad.append((r, sets[0], 'the longest candidate is replaced by a candidate that is empty or not strictly longer'))
-            if tr and tr[-1] and longer and not sets:
-                bad.append((r, None, 'a strictly longer candidate is not kept'))
-        rr.ob(ctx.where(u, lp), '%s: K := candidate only if non-empty and strictly longer, over history.rules_to_apply() (%d rows)' % (qual, len(rows)), ok=not bad and it_ok and K is not None)
-        if not it_ok:
-            rr.fail(ctx.finding('R-LADDER-AGREE', u, lp, '%s does not iterate history.rules_to_apply()' % qual))
-        for r, e, msg in bad:
-            rr.fail(ctx.finding('R-LADDER-AGREE', u, e.node if e is not None else lp, '%s: %s' % (qual, msg), detail={'row': r.show()[:400]}))
-        if K is None:
-            raise AnalysisError('R-LADDER-AGREE: candidate variable of %s not found' % qual)
+        if isinstance(lp, ast.For):
+            it_ok = isinstance(lp, ast.For) and isinstance(lp.iter, ast.Call) and any(t.name == 'rules_to_apply' for t in P.targets(lp.iter))
+            rows = tables(ctx, u, stmts=lp.body, iters=1, keep=lambda n, c: n in ('__apply_webentity_creation_rule',))
+            K = None
+            bad = []
+            cands = [a.targets[0].id for a in ast.walk(lp) if isinstance(a, ast.Assign) and isinstance(a.targets[0], ast.Name) and isinstance(a.value, ast.Call)
+                     and any(t.name == '__apply_webentity_creation_rule' for t in P.targets(a.value))]
+            for a in ast.walk(lp):
+                if isinstance(a, ast.Assign) and isinstance(a.value, ast.Name) and a.value.id in cands and isinstance(a.targets[0], ast.Name):
+                    K = a.targets[0].id
+            for r in rows:
+                sets = [e for e in r.events if e.kind == 'set' and e.name == K]
+                tr = [v for k, v in r.val.items() if k.startswith('truthy:') and 'apply_webentity_creation_rule' in k]
+                longer = None
+                for k, v in r.val.items():
+                    if k.startswith('ORD:') and 'len(' in k and K in k:
+                        a, b = k[4:].split(' ? ')
+                        cand, cur = (a, b) if 'apply_webentity_creation_rule' in a else (b, a)
+                        longer = r.ord(cand, cur) == 'GT'
+                if sets and not (tr and tr[-1] and longer):
+                    bad.append((r, sets[0], 'the longest candidate is replaced by a candidate that is empty or not strictly longer'))
+                if tr and tr[-1] and longer and not sets:
+                    bad.append((r, None, 'a strictly longer candidate is not kept'))
+            rr.ob(ctx.where(u, lp), '%s: K := candidate only if non-empty and strictly longer, over history.rules_to_apply() (%d rows)' % (qual, len(rows)), ok=not bad and it_ok and K is not None)
+            if not it_ok:
+                rr.fail(ctx.finding('R-LADDER-AGREE', u, lp, '%s does not iterate history.rules_to_apply()' % qual))
+            for r, e, msg in bad:
+                rr.fail(ctx.finding('R-LADDER-AGREE', u, e.node if e is not None else lp, '%s: %s' % (qual, msg), detail={'row': r.show()[:400]}))
+            if K is None:
+                raise AnalysisError('R-LADDER-AGREE: candidate variable of %s not found' % qual)
         # ---- the ladder after the loop
         body = u.node.body
         idx = body.index(lp)
